@@ -215,12 +215,12 @@ func (c *Ctx) NoNestedLock(rule string, fn *ssa.Function, class func(recv string
 // struct's mutex field M (same base value) held.
 
 type guardSpec struct {
-	Rule    string
-	Pkg     string       // module-relative package whose functions are scanned
-	Fields  []*types.Var // guarded fields
-	Mutex   string       // name of the mutex field (or embedded type name) in the same struct
-	Exempt  map[string]string // fnKey → reason (e.g. constructors)
-	ReadOK  map[string]bool   // field names for which reads need no lock (immutable refs) – unused by default
+	Rule   string
+	Pkg    string            // module-relative package whose functions are scanned
+	Fields []*types.Var      // guarded fields
+	Mutex  string            // name of the mutex field (or embedded type name) in the same struct
+	Exempt map[string]string // fnKey → reason (e.g. constructors)
+	ReadOK map[string]bool   // field names for which reads need no lock (immutable refs) – unused by default
 }
 
 // entryLocks computes the locks every in-module caller holds when calling fn,
